@@ -224,6 +224,13 @@ func (g *gen) addFaults(f *Fn) {
 }
 
 // randEnc nests leaves 0..n-1 into objects. needObj[i]: leaf i needs tags and must be inside an object.
+// randErrPos: constructors and decorators may return their error anywhere among their results.
+func (g *gen) randErrPos(f *Fn) {
+	if f.HasErr && !g.noLay && g.coin(0.2) {
+		f.ErrPos = 1 + g.r.Intn(2)
+	}
+}
+
 // randSlice: 0 (the unnamed []T) or a named slice type family for a group parameter/result.
 func (g *gen) randSlice() int {
 	if g.noLay || !g.coin(g.p.PNamedSlice) {
@@ -241,9 +248,9 @@ func (g *gen) randLay(in bool) int {
 		return 0
 	}
 	if in {
-		return []int{1, 2, 3, 4}[g.r.Intn(4)]
+		return []int{1, 2, 3, 4, 5, 6}[g.r.Intn(6)]
 	}
-	return []int{1, 4}[g.r.Intn(2)]
+	return []int{1, 4, 5, 6}[g.r.Intn(4)]
 }
 
 func (g *gen) randEnc(n int, needObj []bool, maxDepth int, in bool) []Enc {
@@ -433,6 +440,7 @@ func genHistory(r *rand.Rand, p Profile) *History {
 		c.f.Params = g.randParams(g.r.Intn(4), c.op.Scope, i)
 		c.f.Variadic = g.coin(p.PVariadic)
 		g.addFaults(c.f)
+		g.randErrPos(c.f)
 		viaOpt := c.op.NameOpt != "" || c.op.GroupOpt != ""
 		if len(c.op.As) > 0 && (viaOpt || g.coin(0.5)) {
 			g.encodeParamsOnly(c.f)
@@ -493,6 +501,7 @@ func genHistory(r *rand.Rand, p Profile) *History {
 			f.Params = append(f.Params, g.randParams(1, s, -1)...)
 		}
 		g.addFaults(f)
+		g.randErrPos(f)
 		g.encode(f, false)
 		op.Callback = g.coin(p.PCallback)
 		op.CbPanic = op.Callback && g.coin(p.PCbPanic)
